@@ -87,7 +87,9 @@ def proofs(ctx):
 PRE = ["absent", "stray", "rec_X", "rec_X_absent", "rec_M", "rec_Y", "rec_N_file", "rec_N_absent"]
 SRC = ["ok", "ok", "ok", "file_missing", "M", "X", "N", "inactive", "none"]
 TOOLS = [("both", {}), ("rsync", {}), ("bbcp", {}), ("none", {}), ("real", {}), ("both", {"rsync": "fail"}), ("both", {"bbcp": "fail"}), ("rsync", {"rsync": "mkstemp"}),
-         ("rsync", {"rsync": "write_failed"}), ("both", {"bbcp": "wrong_md5"}), ("both", {"bbcp": "garbled"}), ("bbcp", {"bbcp": "wrong_md5"}), ("rsync", {"rsync": "hang"}), ("bbcp", {"bbcp": "hang"})]
+         ("rsync", {"rsync": "write_failed"}), ("both", {"bbcp": "wrong_md5"}), ("both", {"bbcp": "garbled"}), ("bbcp", {"bbcp": "wrong_md5"}), ("rsync", {"rsync": "hang"}), ("bbcp", {"bbcp": "hang"}),
+         # the daemon's own internal copy (no transport tool) whose output is silently short or altered: its verification of what it wrote must catch it
+         ("none", {"internal": "short"}), ("none", {"internal": "altered"})]
 
 
 def gen_scenario(rng):
@@ -147,7 +149,21 @@ def run_scenario(ctx, base, sc):
         released = nrow is not None and dst_wants == "N"
         src_exists = src_path.is_file()
         pre_disk = {"d": pre_bytes, "s": src_path.read_bytes() if src_exists else None}
-        res = sim.iterate(dst_node.host)
+        imode = sc["tools"][1].get("internal")
+        import shutil as _sh
+        orig_copy2 = _sh.copy2
+        if imode:
+            def bad_copy2(src_, dst_, *a, **k):
+                out_ = orig_copy2(src_, dst_, *a, **k)
+                data_ = pathlib.Path(out_).read_bytes()
+                new_ = data_[: len(data_) // 2] if imode == "short" else (data_[:-1] + bytes([data_[-1] ^ 1]) if data_ else b"")
+                daemon._real["builtins.open"](out_, "wb").write(new_)
+                return out_
+            _sh.copy2 = bad_copy2
+        try:
+            res = sim.iterate(dst_node.host)
+        finally:
+            _sh.copy2 = orig_copy2
         if res["error"]:
             ctx.fail("C02:daemon-died", f"destination daemon died: {res['error'][:300]}", rp)
         req = w.ArchiveFileCopyRequest.get(id=1)
@@ -214,7 +230,8 @@ def run_scenario(ctx, base, sc):
             else:
                 out = f"(TOk (MDigest {cbool(true_md5_ok)}))"
         elif t == "internal":
-            out = f"(TOk (MDigest {cbool(true_md5_ok)}))" if src_exists else "(TFailed true)"
+            spoiled = bool(modes.get("internal")) and sc["size"] > 0 and not (modes.get("internal") == "short" and sc["size"] == 1 and False)
+            out = f"(TOk (MDigest {cbool(true_md5_ok and not spoiled)}))" if src_exists else "(TFailed true)"
         else:
             out = "(TFailed false)"
         # the monitor on the source: a pull that ran and failed in a way the source may be responsible for flags it for
@@ -265,6 +282,8 @@ def explore(ctx, n=None):
     # a released suspect copy on our node (never verified: checks skip released copies) next to a corrupt copy elsewhere in the group
     corpus += [{"local": True, "route_known": True, "src_type": "A", "dst_type": "A", "tools": ("both", {}), "pre": "rec_M", "src": "ok", "name": "f", "size": 150, "bad_md5": False,
                 "others": ["X"], "others_first": of, "dst_wants": "N"} for of in (False, True)]
+    corpus += [{"local": True, "route_known": True, "src_type": st, "dst_type": "A", "tools": ("none", {"internal": m}), "pre": pre, "src": "ok", "name": nm, "size": 150, "bad_md5": False}
+               for st in ("F", "A") for m in ("short", "altered") for pre, nm in (("absent", "f"), ("rec_X", "sub/f"))]
     for c in corpus:
         c.setdefault("others", [])
         c.setdefault("others_first", False)
